@@ -52,8 +52,16 @@ func Sleep(d time.Duration) {
 		time.Sleep(d)
 		return
 	}
-	advance(d)
-	Y(0)
+	if d <= 0 {
+		Y(0)
+		return
+	}
+	// A sleeping task waits for a timer like any other waiter: the clock passes
+	// the deadline when every task waits (or under the clock fault), not the
+	// moment somebody decides to sleep. A library goroutine that sleeps in a
+	// loop therefore does not spin through the run, and a run whose client
+	// tasks are done ends once only such sleepers are left.
+	Recv(After(d))
 }
 
 func advance(d time.Duration) {
